@@ -663,32 +663,70 @@ func ruleEF7() Rule {
 			if f == nil {
 				return
 			}
-			info := f.Info()
-			ast.Inspect(f.Body, func(n ast.Node) bool {
-				switch n := n.(type) {
-				case *ast.ReturnStmt:
-					if len(n.Results) == 2 {
-						key := f.Name + "|return " + exprStr(n.Results[1])
-						if fieldSel(info, n.Results[1], "interp", "lexer", "err") || isNilIdent(info, n.Results[1]) {
-							rr.OK(f, key, n.Pos(), "slot", "returns the lexer's error slot")
-						} else {
-							rr.Bad(f, key, n.Pos(), "Eval returns an error that is not the lexer's slot")
-						}
+			// the function that does the work: Eval itself, or the function of the
+			// package whose results Eval hands on unchanged
+			seen := map[*core.Func]bool{}
+			var checkReturns func(f *core.Func, depth int)
+			checkReturns = func(f *core.Func, depth int) {
+				if seen[f] {
+					return
+				}
+				seen[f] = true
+				info := f.Info()
+				inLit := map[ast.Node]bool{}
+				ast.Inspect(f.Body, func(n ast.Node) bool {
+					if fl, ok := n.(*ast.FuncLit); ok {
+						ast.Inspect(fl.Body, func(x ast.Node) bool {
+							if r, ok := x.(*ast.ReturnStmt); ok {
+								inLit[r] = true
+							}
+							return true
+						})
 					}
-				case *ast.AssignStmt:
-					for i, l := range n.Lhs {
-						if id, ok := l.(*ast.Ident); ok && info.Uses[id] != nil && isErrorType(info.Uses[id].Type()) && i < len(n.Rhs) {
-							key := f.Name + "|err=" + exprStr(n.Rhs[i])
-							if fieldSel(info, n.Rhs[i], "interp", "lexer", "err") {
-								rr.OK(f, key, n.Pos(), "slot", "assigns the lexer's error slot")
+					return true
+				})
+				ast.Inspect(f.Body, func(n ast.Node) bool {
+					switch n := n.(type) {
+					case *ast.ReturnStmt:
+						if inLit[n] {
+							return true // a closure's own return
+						}
+						if len(n.Results) == 1 {
+							if call, ok := ast.Unparen(n.Results[0]).(*ast.CallExpr); ok && depth < 3 {
+								if fo := core.StaticCallee(info, call); fo != nil {
+									if h := c.P.FuncOf(fo); h != nil && h.Pkg == f.Pkg && h.Body != nil && !h.Generated {
+										rr.OK(f, f.Name+"|return "+h.Short+"(…)", n.Pos(), "delegates", "hands on the results of "+h.Short+", whose returns are checked the same way")
+										checkReturns(h, depth+1)
+										return true
+									}
+								}
+							}
+							rr.Bad(f, f.Name+"|return "+exprStr(n.Results[0]), n.Pos(), "Eval hands on the results of another call: its error is not the lexer's slot, so it need not be an ArithExprError (expand asserts that type without a check)")
+						}
+						if len(n.Results) == 2 {
+							key := f.Name + "|return " + exprStr(n.Results[1])
+							if fieldSel(info, n.Results[1], "interp", "lexer", "err") || isNilIdent(info, n.Results[1]) {
+								rr.OK(f, key, n.Pos(), "slot", "returns the lexer's error slot")
 							} else {
-								rr.Bad(f, key, n.Pos(), "Eval's error result is assigned from something other than the lexer's slot")
+								rr.Bad(f, key, n.Pos(), "Eval returns an error that is not the lexer's slot")
+							}
+						}
+					case *ast.AssignStmt:
+						for i, l := range n.Lhs {
+							if id, ok := l.(*ast.Ident); ok && info.Uses[id] != nil && isErrorType(info.Uses[id].Type()) && i < len(n.Rhs) {
+								key := f.Name + "|err=" + exprStr(n.Rhs[i])
+								if fieldSel(info, n.Rhs[i], "interp", "lexer", "err") {
+									rr.OK(f, key, n.Pos(), "slot", "assigns the lexer's error slot")
+								} else {
+									rr.Bad(f, key, n.Pos(), "Eval's error result is assigned from something other than the lexer's slot")
+								}
 							}
 						}
 					}
-				}
-				return true
-			})
+					return true
+				})
+			}
+			checkReturns(f, 0)
 		}}
 }
 
